@@ -474,7 +474,8 @@ class XPathToken(Token[ta.XPathTokenType]):
                     for value in item.iter_typed_values:
                         yield value
 
-                    if value is None:
+                    if value is None and isinstance(item, ElementNode) and \
+                            item.xsd_type is not None and item.xsd_type.is_element_only():
                         msg = f"argument node {item!r} does not have a typed value"
                         raise self.error('FOTY0012', msg)
                 else:
